@@ -21,7 +21,7 @@ def _data(draw):
 # ------------------------------------------------------------------------------ register classes
 def _reg_class(draw, idx, hw):
     # cut the 32 bits into ranges; field boundaries are mostly not byte aligned
-    n_fields = draw(st.sampled_from([1, 2, 2, 3, 3, 4]))
+    n_fields = draw(st.sampled_from([1, 2, 2, 3, 3, 4] if idx else [2, 2, 3, 3, 4]))
     cuts = sorted(draw(st.sets(st.integers(1, 31), min_size=2 * n_fields - 1, max_size=2 * n_fields - 1)))
     bounds = [0] + cuts + [32]
     fields = []
@@ -33,6 +33,8 @@ def _reg_class(draw, idx, hw):
         if not use or len(fields) >= 4:
             continue
         kind = draw(st.sampled_from(["memfield", "memfield", "memufield", "memufield", "field", "ufield", "flag"]))
+        if idx == 0 and len(fields) < 2:
+            kind = draw(st.sampled_from(["memfield", "memufield", "memfield", "flag"]))   # multi-field storage
         f = {"name": f"f{k}", "kind": kind, "hi": hi, "lo": lo, "bit": False, "default": None}
         k += 1
         w = hi - lo + 1
@@ -51,7 +53,7 @@ def _reg_class(draw, idx, hw):
     notify = []
     for j in range(draw(st.sampled_from([0, 0, 1, 1, 2]))):
         notify.append({"name": f"n{j}", "kind": draw(st.sampled_from(["push", "flag"])),
-                       "on": draw(st.sampled_from(["r", "w", "w"]))})
+                       "on": draw(st.sampled_from(["r", "w"]))})
     if not hw:
         notify = []
     return {"name": f"RC{idx}", "fields": fields, "notify": notify}
@@ -109,6 +111,8 @@ def reg_maps(draw):
             cur = off + 4 * wc
         else:
             it = _leaf_item(draw, name, n_classes, hw)
+            if i == 0 and draw(st.integers(0, 4)) != 0:
+                it = {"name": name, "what": "reg", "off": 0, "cls": 0}
             it["off"] = off
             items.append(it)
             cur = off + 4
